@@ -23,4 +23,10 @@ CorruptOK(ret) == ret # "ok"
 \* seen from the implementation - no word of any buffer holds an address of the arena unless its slot is in the
 \* relocation list, and every listed slot lies inside its buffer and holds NULL or an address of the arena
 AuditOK(c) == c.unregistered = 0 /\ c.dangling = 0 /\ c.outside = 0
+
+\* a save through a stream that accepts `limit` bytes (ArenaSave.tla: ResultHonest and OriginalIntact seen from outside)
+ERROR_WRITING_FILE == 58
+SaveFailOK(c) == /\ (c.limit < c.full => c.ret = ERROR_WRITING_FILE)
+                 /\ (c.limit >= c.full => c.ret = 0)
+                 /\ AuditOK(c) /\ c.same
 =============================================================================
